@@ -105,7 +105,12 @@ func (i *importer) importFile(dbcFile *dbc.File) (*Bus, error) {
 
 	i.importExtMuxes(dbcFile.ExtendedMuxes)
 
-	if err := i.importNodes(dbcFile.Nodes); err != nil {
+	dbcNodes := dbcFile.Nodes
+	if dbcNodes == nil {
+		dbcNodes = new(dbc.Nodes)
+	}
+
+	if err := i.importNodes(dbcFile, dbcNodes); err != nil {
 		return nil, err
 	}
 
@@ -171,14 +176,14 @@ func (i *importer) importAttributes(dbcAtts []*dbc.Attribute, dbcAttDefs []*dbc.
 			att = NewStringAttribute(dbcAtt.Name, dbcAttDef.ValueString)
 
 		case dbc.AttributeInt:
-			intAtt, err := NewIntegerAttribute(dbcAtt.Name, dbcAttDef.ValueInt, dbcAtt.MinInt, dbcAtt.MaxInt)
+			intAtt, err := NewIntegerAttribute(dbcAtt.Name, i.getDefaultInt(dbcAttDef), dbcAtt.MinInt, dbcAtt.MaxInt)
 			if err != nil {
 				return i.errorf(dbcAtt, err)
 			}
 			att = intAtt
 
 		case dbc.AttributeHex:
-			hexAtt, err := NewIntegerAttribute(dbcAtt.Name, int(dbcAttDef.ValueHex), int(dbcAtt.MinHex), int(dbcAtt.MaxHex))
+			hexAtt, err := NewIntegerAttribute(dbcAtt.Name, i.getDefaultInt(dbcAttDef), int(dbcAtt.MinHex), int(dbcAtt.MaxHex))
 			if err != nil {
 				return i.errorf(dbcAtt, err)
 			}
@@ -186,7 +191,7 @@ func (i *importer) importAttributes(dbcAtts []*dbc.Attribute, dbcAttDefs []*dbc.
 			att = hexAtt
 
 		case dbc.AttributeFloat:
-			floatAtt, err := NewFloatAttribute(dbcAtt.Name, dbcAttDef.ValueFloat, dbcAtt.MinFloat, dbcAtt.MaxFloat)
+			floatAtt, err := NewFloatAttribute(dbcAtt.Name, i.getDefaultFloat(dbcAttDef), dbcAtt.MinFloat, dbcAtt.MaxFloat)
 			if err != nil {
 				return i.errorf(dbcAtt, err)
 			}
@@ -264,17 +269,27 @@ func (i *importer) importAttributes(dbcAtts []*dbc.Attribute, dbcAttDefs []*dbc.
 				attType, ok := specialAttributeTypes[attName]
 				if ok {
 					switch attType {
-					case specialAttributeMsgCycleTime:
-						msg.SetCycleTime(value.(int))
+					case specialAttributeMsgCycleTime, specialAttributeMsgDelayTime, specialAttributeMsgStartDelayTime:
+						intVal, ok := value.(int)
+						if !ok {
+							return i.errorf(dbcAttVal, &AttributeValueError{Err: ErrInvalidType})
+						}
 
-					case specialAttributeMsgDelayTime:
-						msg.SetDelayTime(value.(int))
-
-					case specialAttributeMsgStartDelayTime:
-						msg.SetStartDelayTime(value.(int))
+						switch attType {
+						case specialAttributeMsgCycleTime:
+							msg.SetCycleTime(intVal)
+						case specialAttributeMsgDelayTime:
+							msg.SetDelayTime(intVal)
+						case specialAttributeMsgStartDelayTime:
+							msg.SetStartDelayTime(intVal)
+						}
 
 					case specialAttributeMsgSendType:
-						msg.SetSendType(messageSendTypeFromDBC(value.(string)))
+						strVal, ok := value.(string)
+						if !ok {
+							return i.errorf(dbcAttVal, &AttributeValueError{Err: ErrInvalidType})
+						}
+						msg.SetSendType(messageSendTypeFromDBC(strVal))
 					}
 
 					break
@@ -291,16 +306,23 @@ func (i *importer) importAttributes(dbcAtts []*dbc.Attribute, dbcAttDefs []*dbc.
 				if ok {
 					switch attType {
 					case specialAttributeSigStartValue:
-						switch value.(type) {
+						switch v := value.(type) {
 						case float64:
-							sig.SetStartValue(value.(float64))
+							sig.SetStartValue(v)
 
 						case int:
-							sig.SetStartValue(float64(value.(int)))
+							sig.SetStartValue(float64(v))
+
+						default:
+							return i.errorf(dbcAttVal, &AttributeValueError{Err: ErrInvalidType})
 						}
 
 					case specialAttributeSigSendType:
-						sig.SetSendType(signalSendTypeFromDBC(value.(string)))
+						strVal, ok := value.(string)
+						if !ok {
+							return i.errorf(dbcAttVal, &AttributeValueError{Err: ErrInvalidType})
+						}
+						sig.SetSendType(signalSendTypeFromDBC(strVal))
 					}
 
 					break
@@ -315,6 +337,32 @@ func (i *importer) importAttributes(dbcAtts []*dbc.Attribute, dbcAttDefs []*dbc.
 	}
 
 	return nil
+}
+
+// getDefaultInt returns the numeric default value of an attribute as an integer,
+// whatever the way it is written in the file (integer, hex or decimal).
+func (i *importer) getDefaultInt(dbcAttDef *dbc.AttributeDefault) int {
+	switch dbcAttDef.Type {
+	case dbc.AttributeDefaultHex:
+		return int(dbcAttDef.ValueHex)
+	case dbc.AttributeDefaultFloat:
+		return int(dbcAttDef.ValueFloat)
+	default:
+		return dbcAttDef.ValueInt
+	}
+}
+
+// getDefaultFloat returns the numeric default value of an attribute as a float,
+// whatever the way it is written in the file (integer, hex or decimal).
+func (i *importer) getDefaultFloat(dbcAttDef *dbc.AttributeDefault) float64 {
+	switch dbcAttDef.Type {
+	case dbc.AttributeDefaultInt:
+		return float64(dbcAttDef.ValueInt)
+	case dbc.AttributeDefaultHex:
+		return float64(dbcAttDef.ValueHex)
+	default:
+		return dbcAttDef.ValueFloat
+	}
 }
 
 func (i *importer) importValueTable(dbcValTable *dbc.ValueTable) error {
@@ -385,7 +433,7 @@ func (i *importer) importExtMuxes(dbcExtMuxes []*dbc.ExtendedMux) {
 	}
 }
 
-func (i *importer) importNodes(dbcNodes *dbc.Nodes) error {
+func (i *importer) importNodes(dbcFile *dbc.File, dbcNodes *dbc.Nodes) error {
 	for idx, nodeName := range dbcNodes.Names {
 		if nodeName == dbc.DummyNode {
 			continue
@@ -400,14 +448,14 @@ func (i *importer) importNodes(dbcNodes *dbc.Nodes) error {
 		tmpNodeInt := tmpNode.Interfaces()[0]
 
 		if err := i.bus.AddNodeInterface(tmpNodeInt); err != nil {
-			return i.errorf(dbcNodes, err)
+			return i.errorf(dbcFile, err)
 		}
 
 		i.nodeInts[tmpNode.name] = tmpNodeInt
 	}
 
 	if err := i.bus.AddNodeInterface(NewNode(dbc.DummyNode, 1024, 1).Interfaces()[0]); err != nil {
-		return i.errorf(dbcNodes, err)
+		return i.errorf(dbcFile, err)
 	}
 
 	return nil
@@ -666,8 +714,13 @@ func (i *importer) importMuxSignal(dbcMuxSig *dbc.Signal, dbcMsgID uint32, muxed
 		dbcExtMux, ok := i.dbcExtMuxes[i.getSignalKey(dbcMsgID, tmpSig.Name())]
 		if ok {
 			for _, valRange := range dbcExtMux.Ranges {
-				for j := valRange.From; j <= valRange.To; j++ {
-					groupIDs = append(groupIDs, int(j))
+				// the range cannot go beyond the groups of the multiplexer
+				if int(valRange.To) >= muxSig.groupCount {
+					return nil, i.errorf(valRange, &GroupIDError{GroupID: int(valRange.To), Err: ErrOutOfBounds})
+				}
+
+				for j := int(valRange.From); j <= int(valRange.To); j++ {
+					groupIDs = append(groupIDs, j)
 				}
 			}
 
@@ -755,7 +808,7 @@ func (i *importer) importSignalType(dbcSig *dbc.Signal) (*SignalType, error) {
 	}
 
 	sigSize := int(dbcSig.Size)
-	if sigSize == 1 && !signed {
+	if sigSize == 1 && !signed && dbcSig.Factor == 1 && dbcSig.Offset == 0 && dbcSig.Min == 0 && dbcSig.Max == 1 {
 		return i.flagSigType, nil
 	}
 
